@@ -48,8 +48,23 @@ THEOREMS = [
     'CC.C06_gen_idioms', 'CC.C06_gen_transformers', 'CC.C06_gen_isolated',
     'CC.C06_gen_open_circuit_impedance', 'CC.C06_gen_open_circuit_impedance_rows',
     'CC.C06_gen_element_impedance', 'CC.C06_gen_element_impedance_rows', 'CC.C06_gen_value_lossless',
+    # round 5b — the equivalent source as an explicit NETWORK (CC/Properties/C06Replace.lean): thevNet (ideal source U in series with Z,
+    # internal node) / nortNet (ideal source I parallel to Y); any load branch sees the same voltage, current and port voltage
+    'CC.C06_thevNet_wellPosed_iff', 'CC.C06_nortNet_wellPosed_iff', 'CC.C06_thevenin_network_spec',
+    'CC.C06_thevenin_replace', 'CC.C06_thevenin_replace_exists', 'CC.C06_norton_replace', 'CC.C06_norton_replace_exists',
+    # round 5b — the LinAlgError fallback of open_circuit_voltage (CC/Properties/C06Fallback.lean)
+    'CC.C06_solutionVector_cases', 'CC.C06_oc_voltage_fallback_value', 'CC.C06_solver_none_iff', 'CC.C06_mna_solution_exists',
+    'CC.C06_oc_voltage_no_fallback', 'CC.C06_oc_voltage_wellposed', 'CC.C06_thevenin_record_terminal_wp',
+    'CC.C06_norton_record_terminal_wp', 'CC.C06_thevenin_replace_wp',
+    # round 5b — jwL, 1/(jwC), series / parallel closed forms, sweep / dcResistance (CC/Properties/C06Elements.lean)
+    'CC.C06_single_element_impedance', 'CC.C06_portZ_series', 'CC.C06_portZ_parallel', 'CC.C06_portZ_parallel_harmonic',
+    'CC.C06_single_open_no_impedance', 'CC.C06_model_value_of_portZ', 'CC.C06_single_element_model', 'CC.C06_series_model',
+    'CC.C06_parallel_model', 'CC.C06_capacitor_impedance', 'CC.C06_inductance_impedance', 'CC.C06_resistor_impedance',
+    'CC.C06_capacitor_dc_open', 'CC.C06_series_RL', 'CC.C06_series_LC', 'CC.C06_capacitor_sweep',
+    'CC.C06_sweep_pointwise', 'CC.C06_sweep_map', 'CC.C06_sweep_error', 'CC.C06_dcResistance_eq',
 ]
-LEAN_MODULE_EXTRA = ['CC.Properties.C06Prune', 'CC.Properties.C06PruneReg', 'CC.Properties.C06Equiv', 'CC.Properties.C06Gen']
+LEAN_MODULE_EXTRA = ['CC.Properties.C06Prune', 'CC.Properties.C06PruneReg', 'CC.Properties.C06Equiv', 'CC.Properties.C06Gen',
+                     'CC.Properties.C06Replace', 'CC.Properties.C06Fallback', 'CC.Properties.C06Elements']
 OPEN_STATEMENTS = [
     'CC.C06_impl_complete_statement (false for floating groups of nodes: C06_floating_island_counterexample)',
     'code-level equality WITH pruned unknowns: soundness is proved (C06_impl_eq_spec_pruned: PortZ defined and a number returned => the '
@@ -57,13 +72,24 @@ OPEN_STATEMENTS = [
     '=> PortZ is defined and is that number; any number of pruned unknowns).  Still open on this path: completeness (when does the function '
     'return a number) — false in general (floating island), not characterised by a theorem; the caller-supplied node_index_mapper '
     '(the model has the alphabetic default only)',
-    'openCircuitVoltage when numpy raises LinAlgError: the code falls back to the ZERO vector; C06_openCircuitVoltage_sound and everything '
-    'built on it (C06_shortCircuitCurrent_spec, C06_thevenin_record_terminal, C06_norton_record_terminal) assume the solver answers '
-    '(solve N.mnaA N.mnaB ≠ none); the fallback path has no theorem',
-    'equivalent-source records: proved as terminal equations V = U − Z·J and J = I − Y·V for every attached load; NOT proved: the same '
-    'statement phrased with an explicit equivalent NETWORK (source + series impedance as branches) solved by the model, the early-return / '
-    'isolated-port branches of nortonEquivalent and shortCircuitCurrent (ZeroDivisionError, NonFinite, Infinite), sweep / dcResistance and '
-    'the jwL, 1/(jwC) clause: model + correspondence + oracle only',
+    'openCircuitVoltage when numpy raises LinAlgError (zero-vector fallback): characterised (C06_solutionVector_cases: taken iff the checks pass '
+    'and the solver returns none; C06_oc_voltage_fallback_value: it then reports 0 V) and proved unreachable for a valid WELL-POSED network and a '
+    'solver that answers whenever the system is solvable (C06_oc_voltage_no_fallback, exact arithmetic).  Still open: a network that is valid but '
+    'NOT well-posed (e.g. a floating group of nodes with a consistent system) with a solver that raises on every singular matrix, as numpy does — '
+    'there the fallback IS taken and the reported 0 V is in general not a solution; that behaviour is modelled and covered by the oc_voltage '
+    'correspondence only; binary64 conditioning is outside the theorems',
+    'equivalent-source records as explicit networks: proved at Spec level (C06_thevenin_replace / C06_norton_replace: every solution of N + x and '
+    'every solution of thevNet(U,Z) + x resp. nortNet(I,Y) + x agree on the load voltage, load current and port voltage, for every load branch x with '
+    'seriesDet / parallelDet ≠ 0, which is exactly well-posedness of the loaded equivalent: C06_thevNet_wellPosed_iff, C06_nortNet_wellPosed_iff).  '
+    'NOT proved: that the MODEL solver (Net.solutionVector on the three-branch equivalent network) returns those values — it follows from C01_sound + '
+    'C01_unique for any SolveOK solver that answers, but is not stated as one theorem; the early-return / isolated-port branches of nortonEquivalent and '
+    'shortCircuitCurrent (ZeroDivisionError, NonFinite, Infinite) have no theorem',
+    'jwL, 1/(jwC), series / parallel, sweep / dcResistance: proved for the translated single components and explicit one- and two-branch networks '
+    '(C06_capacitor_impedance, C06_inductance_impedance, C06_resistor_impedance, C06_portZ_series, C06_portZ_parallel, model versions '
+    'C06_*_model) and for the generic wrappers (C06_sweep_pointwise, C06_sweep_error, C06_dcResistance_eq).  Still open: the composition of '
+    'transform_circuit with the sweep for a WHOLE circuit (C06_capacitor_sweep takes the per-frequency one-branch networks as given, it does not '
+    'call transformCircuit); the model-level closed forms are soundness statements (IF a number is returned it is the closed form) — that the '
+    'function returns on these networks is shown on concrete examples only (exOne, exSer, exPar)',
     'translator tie (C06_gen_*) covers open_circuit_impedance and element_impedance only: open_circuit_voltage / short_circuit_current '
     '(bias_point_analysis.py), Network/equivalent_sources.py and the wrappers of Circuit/impedance.py are NOT translated (hand model + '
     'correspondence); a node_index_mapper other than map.default_node_mapper is outside the generated definitions as well',
